@@ -2,7 +2,7 @@
 import z3
 
 from pyvc.contract import Contract
-from pyvc.engine import Obj, Sym, Builtin, fresh, named, BOOL, INT, STR
+from pyvc.engine import Obj, Sym, Builtin, PyRaise, fresh, named, BOOL, INT, STR
 from pyvc.units import Lemma
 from pyvc import stubs, externals, segstr
 
@@ -252,3 +252,81 @@ def extra_units():
     from pyvc.units import share
     want = ('layout[CELSeq1_c8_u4]', 'layout[chrom10x_c16_u12]', 'layout[CELSeq2_c8_u6]', 'layout[SCCHIC_384w_c8_u3]')
     return [share(u, PROP) for u in c02.UNITS if u.name in want]
+
+
+# ------------------------------------------------------------------------------ _parse_illumina_header: what goes into the name
+# the eleven fields of an Illumina header are stored under their tags; `aa` is the sequencing index as it stands in the header
+# (raw), `aA` / `aI` the corrected index and its identifier - so that decoding restores the ORIGINAL index
+def pih_setup(eng):
+    c04_setup(eng)
+    fields = [safe_atom(eng, 'hdr_%d' % i) for i in range(10)]
+    index = safe_atom(eng, 'hdr_index')
+    eng.spec_env['FIELDS'], eng.spec_env['INDEX'] = fields, index
+    eng.spec_env['HDR'] = segstr.build(sum(([':' if i else '', f] for i, f in enumerate(fields[:7])), []) + [' ']
+                                       + sum(([':' if i else '', f] for i, f in enumerate(fields[7:])), []) + [':', index])
+    corrected, ident = safe_atom(eng, 'corrected_index'), safe_atom(eng, 'index_identifier')
+    eng.spec_env['CORRECTED'], eng.spec_env['IDENT'] = corrected, ident
+    eng.spec_env['KNOWN'] = named(BOOL, 'index_known')
+
+    def lookup(e, o, *a, **k):
+        if e.branch(e.spec_env['KNOWN'].z):
+            return (ident, corrected, named(INT, 'index_distance'))
+        return (None, None, None)
+    stubs.STUBS['IndexParser'] = {'methods': {'getIndexCorrectedBarcodeAndHammingDistance': lookup}, 'props': {}, 'setters': {}}
+
+    # the sequencing index is a DNA sequence, not a number: int(index) raises ValueError (an all-digit index is kept as it is)
+    def _int(e, a, k, n):
+        if a and isinstance(a[0], Sym) and a[0].z.eq(index.z):
+            raise PyRaise('ValueError', 'invalid literal for int()')
+        return e.call(e.builtins()['int'], a, k)
+    eng.spec_env['INT'] = Builtin('int', _int)
+
+
+def pih_parser(eng, name):
+    o = Obj('IndexParser', {})
+    o.vc_immutable = True
+    return o
+
+
+parse_header = Contract(
+    PROP, FB + '::TaggedRecord._parse_illumina_header', name='TaggedRecord._parse_illumina_header',
+    params={'self': ('obj', 'TaggedRecord', {'tags': ('const', None)}, FB), 'header': lambda e, n: e.spec_env['HDR'],
+            'indexFileParser': pih_parser, 'indexFileAlias': ('const', 'indices')},
+    cases=[{}, {'indexFileParser': 'none'}],
+    setup=pih_setup,
+    pre_state=lambda eng, fr: (fr.env['self'].attrs.__setitem__('tags', {}), fr.env.update({'int': eng.spec_env['INT']}))[0],
+    ensures={
+        'illumina_coordinates_under_their_tags':
+            'all(self.tags[t] == FIELDS[i] for i, t in enumerate(["Is", "RN", "Fc", "La", "Ti", "CX", "CY", "RP", "Fi", "CN"]))',
+        'raw_sequencing_index_as_it_stands_in_the_header': 'self.tags["aa"] == INDEX',
+        'corrected_index_and_identifier': 'implies(indexFileParser is not None, self.tags["aA"] == CORRECTED and self.tags["aI"] == IDENT)',
+    },
+    raises={'NonMultiplexable': 'indexFileParser is not None and not KNOWN'},
+    assumptions=['Illumina header of the common form: 7 colon-separated fields, a space, 3 fields and the index; the index is a '
+                 'DNA sequence (int() fails on it); fields are header-safe atoms'],
+)
+UNITS.append(parse_header)
+
+
+# ------------------------------------------------------------------------------ str(record): what FastqHandle.write emits
+# "a header too long to be stored is refused loudly rather than truncated" must also hold for the text that is actually
+# written: str(record) is asFastq() - it raises for an over-long header, it never returns something else
+def repr_record(eng, name):
+    r = record(eng, name)
+    r.attrs.update({'sequence': safe_atom(eng, 'rec_sequence'), 'plus': '+', 'qualities': safe_atom(eng, 'rec_qualities')})
+    return r
+
+
+repr_unit = Contract(
+    PROP, FB + '::TaggedRecord.__repr__', name='TaggedRecord.__repr__[the text that is written]',
+    params={'self': repr_record},
+    setup=c04_setup,
+    ensures={
+        'the_written_text_is_the_fastq_record':
+            'result == "@" + %s + "\\n" + self.sequence + "\\n+\\n" + self.qualities + "\\n"' % HEADER,
+        'header_fits_in_a_read_name': 'len(%s) <= 254' % HEADER,
+    },
+    raises={'ValueError': 'len(%s) > 254' % HEADER},
+    assumptions=['tag values are header-safe atoms; representative tag set'],
+)
+UNITS.append(repr_unit)
